@@ -469,7 +469,7 @@ pub fn moments(data: &[u8], known: &[&str]) -> Option<Found> {
         5 => {
             let y = ys(&xs);
             let pairs = xs.into_iter().zip(y).collect();
-            run("C09", &c09::Cov, &c08::WCase { pairs, cuts, merges, path: sub % 5 }, known)
+            run("C09", &c09::Cov, &c08::WCase { pairs, cuts, merges, path: sub % c08::PATHS }, known)
         }
         6 => run("C10", &c10::SampleStats, &Xs { xs }, known),
         7 => {
